@@ -12,27 +12,27 @@ open Sfs
 theorem distinct_first_appearance {κ} [DecidableEq κ] (l : List κ) :
     (distinctInOrder l).Nodup ∧ (∀ x, x ∈ distinctInOrder l ↔ x ∈ l) ∧
       ∀ x y, x ∈ l → y ∈ l → ((distinctInOrder l).idxOf x < (distinctInOrder l).idxOf y ↔ l.idxOf x < l.idxOf y) := by
-  sorry
+  exact distinct_spec l
 
 /-- ids_first_appearance: for a list without repeated samples, sample `s` with label `p` gets the position of `p`
     among the distinct labels in first-appearance order (unnamed is one label like any other). -/
 theorem ids_first_appearance (l : List (String × Pop)) (hnd : (l.map (·.1)).Nodup) :
     sampleMap l = l.map (fun sp => (sp.1, (distinctInOrder (l.map (·.2))).idxOf sp.2)) := by
-  sorry
+  exact sampleMap_of_nodup l hnd
 
 /-- A sample listed twice counts once, the last entry deciding its population, at the position of the first. -/
 theorem duplicate_sample_last_wins (pre post : List (String × Pop)) (s : String) (p : Pop)
     (hpost : s ∉ post.map (·.1)) :
     (indexMapOfList (pre ++ (s, p) :: post)).lookup s = some p ∧
     ((indexMapOfList (pre ++ (s, p) :: post)).map (·.1)) = distinctInOrder ((pre ++ (s, p) :: post).map (·.1)) := by
-  sorry
+  exact ⟨lookup_indexMapOfList_last pre post s p hpost, keys_indexMapOfList _⟩
 
 /-- axis_len: axis `j` has length `2 * (number of listed samples with the j-th label) + 1`, and there is one axis
     per distinct label. -/
 theorem axis_len (l : List (String × Pop)) (hnd : (l.map (·.1)).Nodup) :
     mapShape (sampleMap l) =
       (distinctInOrder (l.map (·.2))).map (fun p => 2 * (l.filter (fun sp => sp.2 = p)).length + 1) := by
-  sorry
+  exact mapShape_sampleMap_of_nodup l hnd
 
 /-- The site classification (counts per population, or skip, or abort). -/
 def siteOf (cfg : SiteCfg) (gts : List GtRes) : Option Site :=
@@ -45,7 +45,13 @@ theorem column_perm_invariant (map : List (String × Nat)) (pt : Option (List Na
     (hl : cols.length = gts.length) (hl' : cols'.length = gts'.length)
     (hp : (cols.zip gts).Perm (cols'.zip gts')) :
     siteOf ⟨map, cols, pt⟩ gts = siteOf ⟨map, cols', pt⟩ gts' := by
-  sorry
+  -- the length hypotheses are not needed: `tally` and `List.zip` both stop at the shorter list
+  have _ := hl; have _ := hl'
+  unfold siteOf
+  refine readSite_fst_congr ⟨map, cols, pt⟩ ⟨map, cols', pt⟩ _ _ gts gts' rfl ?_
+  show summ (tally map cols gts _) = summ (tally map cols' gts' _)
+  rw [tally_eq_tallyP, tally_eq_tallyP]
+  exact tallyP_perm map hp _
 
 /-- list_reorder_invariant: two sample lists with the same (sample, label) pairs and the same first-appearance
     order of labels give the same map up to entry order, hence the same shape and the same sites. -/
@@ -53,13 +59,20 @@ theorem list_reorder_invariant (l l' : List (String × Pop)) (hnd : (l.map (·.1
     (ho : distinctInOrder (l.map (·.2)) = distinctInOrder (l'.map (·.2))) :
     (∀ s, lookupPop (sampleMap l) s = lookupPop (sampleMap l') s) ∧ mapShape (sampleMap l) = mapShape (sampleMap l')
       ∧ numPops (sampleMap l) = numPops (sampleMap l') := by
-  sorry
+  exact sampleMap_reorder l l' hnd hp ho
 
 /-- The site only depends on the map through `lookupPop` (and the number of populations). -/
 theorem site_depends_on_lookup (m m' : List (String × Nat)) (pt : Option (List Nat)) (cols : List String) (gts : List GtRes)
     (hlk : ∀ s, lookupPop m s = lookupPop m' s) (hn : numPops m = numPops m') :
     siteOf ⟨m, cols, pt⟩ gts = siteOf ⟨m', cols, pt⟩ gts := by
-  sorry
+  unfold siteOf
+  show (readSite ⟨m, cols, pt⟩ (SiteSt.fresh (numPops m)) gts).1 =
+    (readSite ⟨m', cols, pt⟩ (SiteSt.fresh (numPops m')) gts).1
+  rw [← hn]
+  refine readSite_fst_congr ⟨m, cols, pt⟩ ⟨m', cols, pt⟩ _ _ gts gts rfl ?_
+  show summ (tally m cols gts _) = summ (tally m' cols gts _)
+  rw [tally_eq_tallyP, tally_eq_tallyP]
+  exact tallyP_congr m m' hlk _ _ _ rfl
 
 /-- samples_arg_eq_file: for names and labels free of `,` `=` tab and newline the two spellings denote the same list. -/
 def renderArgItem (sp : List Char × Option (List Char)) : List Char :=
@@ -79,24 +92,65 @@ def clean (l : List Char) : Prop := ',' ∉ l ∧ '=' ∉ l ∧ '\t' ∉ l ∧ '
 
 theorem arg_item (sp : List Char × Option (List Char)) (h1 : clean sp.1) (h2 : ∀ p, sp.2 = some p → clean p) :
     parseSampleArg (renderArgItem sp) = asEntry sp ∧ parseSampleLine (renderFileItem sp) = asEntry sp := by
-  sorry
+  obtain ⟨k, o⟩ := sp
+  have hk : clean k := h1
+  cases o with
+  | none =>
+    exact ⟨parseSampleArg_unnamed k hk.2.1, parseSampleLine_unnamed k hk.2.2.1⟩
+  | some p =>
+    exact ⟨parseSampleArg_named k p hk.2.1, parseSampleLine_named k p hk.2.2.1⟩
 
 theorem samples_arg_eq_file (L : List (List Char × Option (List Char))) (hne : L ≠ [])
     (h1 : ∀ sp ∈ L, clean sp.1 ∧ sp.1 ≠ []) (h2 : ∀ sp ∈ L, ∀ p, sp.2 = some p → clean p) :
     parseSamplesArg (List.intercalate [','] (L.map renderArgItem)) = L.map asEntry ∧
     parseSamplesFile (List.intercalate ['\n'] (L.map renderFileItem) ++ ['\n']) = L.map asEntry ∧
     parseSamplesFile (List.intercalate ['\n'] (L.map renderFileItem)) = L.map asEntry := by
-  sorry
+  have hA : (L.map renderArgItem).map parseSampleArg = L.map asEntry := by
+    rw [List.map_map]
+    exact List.map_congr_left (fun sp hsp => (arg_item sp (h1 sp hsp).1 (h2 sp hsp)).1)
+  have hF : (L.map renderFileItem).map parseSampleLine = L.map asEntry := by
+    rw [List.map_map]
+    exact List.map_congr_left (fun sp hsp => (arg_item sp (h1 sp hsp).1 (h2 sp hsp)).2)
+  have hneA : L.map renderArgItem ≠ [] := by simpa using hne
+  have hneF : L.map renderFileItem ≠ [] := by simpa using hne
+  have hcomma : ∀ t ∈ L.map renderArgItem, ',' ∉ t := by
+    intro t ht
+    obtain ⟨⟨k, o⟩, hsp, rfl⟩ := List.mem_map.1 ht
+    have hk : clean k := (h1 _ hsp).1
+    cases o with
+    | none => exact hk.1
+    | some p =>
+      have hp : clean p := h2 _ hsp p rfl
+      simp only [renderArgItem, List.mem_append, List.mem_cons, not_or]
+      exact ⟨hk.1, by decide, hp.1⟩
+  have hnl : ∀ t ∈ L.map renderFileItem, '\n' ∉ t := by
+    intro t ht
+    obtain ⟨⟨k, o⟩, hsp, rfl⟩ := List.mem_map.1 ht
+    have hk : clean k := (h1 _ hsp).1
+    cases o with
+    | none => exact hk.2.2.2
+    | some p =>
+      have hp : clean p := h2 _ hsp p rfl
+      simp only [renderFileItem, List.mem_append, List.mem_cons, not_or]
+      exact ⟨hk.2.2.2, by decide, hp.2.2.2⟩
+  have hnonempty : ∀ t ∈ L.map renderFileItem, t ≠ [] := by
+    intro t ht
+    obtain ⟨⟨k, o⟩, hsp, rfl⟩ := List.mem_map.1 ht
+    have hk : k ≠ [] := (h1 _ hsp).2
+    cases o <;> simp [renderFileItem, hk]
+  exact ⟨by rw [parseSamplesArg_intercalate _ hneA hcomma, hA],
+    by rw [parseSamplesFile_intercalate_nl _ hneF hnl, hF],
+    by rw [parseSamplesFile_intercalate _ hneF hnl hnonempty, hF]⟩
 
 /-- unknown_or_empty_is_error. -/
 theorem empty_list_is_error (project : Option (List Nat)) (cols : List String) :
     buildSite (some []) project cols = .error .emptySamplesMap := by
-  sorry
+  exact buildSite_nil project cols
 
 theorem unknown_sample_is_error (l : List (String × Pop)) (project : Option (List Nat)) (cols : List String)
     (h : ∃ sp ∈ l, sp.1 ∉ cols) :
     ∃ s, buildSite (some l) project cols = .error (.unknownSample s) ∧ s ∉ cols ∧ s ∈ l.map (·.1) := by
-  sorry
+  exact buildSite_unknown l project cols h
 
 /-! non-vacuity: list `s0=B,s1,s4=A,s2=B` -/
 example : sampleMap [("s0", .named "B"), ("s1", .unnamed), ("s4", .named "A"), ("s2", .named "B")]
